@@ -2,6 +2,6 @@
 SPECIFICATION FairSpec
 CONSTANTS
   Variant = "ok"
-  MaxP = 7
+  MaxP = 10
   Scripts <- CatThorough
 PROPERTY Termination
